@@ -6,7 +6,9 @@ VARIABLES phase, bi, ti, ri
 
 Bases == <<<<>>, S("v1.2.3"), S("v1.2"), S("v1"), S("v0.0.0"), S("v1.2.9"), S("v1.2.99"), S("v1.2.9999999999999999999999999"),
            S("v1.2.3-pre"), S("v1.2.3-0"), S("v1.2.3-a-b"), S("v1.2.3-pre.1"), S("v2.0.0+incompatible"), S("v1.2.3+meta"),
-           S("v1.2.3-rc.1+incompatible"), S("v10.20.30"), S("v1.2.3-0.0"), S("bad"), S("v1.2.3-01")>>
+           S("v1.2.3-rc.1+incompatible"), S("v10.20.30"), S("v1.2.3-0.0"), S("bad"), S("v1.2.3-01"),
+           \* build metadata may contain hyphens and dots
+           S("v1.2.3+build-7"), S("v1.2.3+linux-amd64.cgo"), S("v1.2.3-rc.1+meta-pre"), S("v1.2+a-b")>>
 Times == IF Size = "small"
          THEN <<<<1, 1, 1, 0, 0, 0>>, <<999, 12, 31, 23, 59, 59>>, <<2019, 10, 11, 19, 15, 35>>, <<2019, 10, 11, 19, 15, 36>>, <<9999, 12, 31, 23, 59, 59>>>>
          ELSE <<<<1, 1, 1, 0, 0, 0>>, <<999, 12, 31, 23, 59, 59>>, <<1000, 1, 1, 0, 0, 0>>, <<2019, 10, 11, 19, 15, 35>>, <<2019, 10, 11, 19, 15, 36>>,
